@@ -17,8 +17,8 @@
    `byname` is how advance_cron_trigger addresses the row: true = by t.name (resolved among the rows visible to the
    trigger's project), false = by t.id; what the code does is Gen.CronCfg.lookup_by_name, extracted on every run.
    `unamb db0`: no two rows share a name while one is visible to the other's project (same project or public);
-   it is needed only when byname = true, and without it the property FAILS on the faithful model and on the
-   code: C17_*_refuted_ambiguous_names. *)
+   it is needed only when byname = true (the code has since been changed to look up by id), and without it the
+   property FAILS on the faithful model: C17_*_refuted_ambiguous_names. *)
 From Coq Require Import List NArith ZArith Bool.
 Require Import Mistral.Model.Cron Mistral.Proofs.CronProofs Mistral.Gen.CronCfg.
 Import ListNotations.
@@ -210,9 +210,9 @@ Theorem C17_occurrence_twice_when_update_not_matched :
 Proof. exact occurrence_twice_when_update_not_matched. Qed.
 Print Assumptions C17_occurrence_twice_when_update_not_matched.
 
-(* non-vacuity: a concrete unambiguous two-project database (same name, both private), three processors racing (two of them
-   inside their database call at the same time),
-   a crash between advance and start; the hypotheses hold and the run really starts workflows and removes a row *)
+(* non-vacuity: a concrete unambiguous two-project database (same name, both private), three processors racing, two
+   of them inside their database call on the same row at the same time (Sel 1 0; Sel 0 0; Wr 1; Wr 0), a crash
+   between advance and start; the hypotheses hold and the run really starts workflows and removes a row *)
 Example C17_nonvacuous :
   let rows := [(0%nat, mkTrig 0 0 false 1 100020 (Some 2%Z)); (1%nat, mkTrig 0 1 false 2 100020 None)] in
   let nx := fun (_ : nat) (t : N) => (t / 60 + 1) * 60 in
